@@ -33,10 +33,10 @@ DISABLED = [b'x-secret', b'accept-language']
 _FLAGS: Dict[Any, Any] = {}
 
 
-def flags_for(disable: bool, pool: bool = False) -> Any:
+def flags_for(disable: bool, pool: bool = False, events: bool = False) -> Any:
     # fresh flags for every case: what one request does to process-wide configuration (e.g. the operator's
     # disabled-header list) must show in the case that did it, so that its replay file reproduces it
-    argv = ['--threadless'] + (['--enable-conn-pool'] if pool else [])
+    argv = ['--threadless'] + (['--enable-conn-pool'] if pool else []) + (['--enable-events'] if events else [])
     if disable:
         argv += ['--disable-headers', ','.join(d.decode() for d in DISABLED)]
     return K.make_flags(argv)
@@ -66,7 +66,7 @@ def origin_form(target: bytes) -> bytes:
 
 def run_case(c: Dict[str, Any]) -> Dict[str, Any]:
     raw = G.render(c['req'])
-    flags = flags_for(c.get('disable', False), c.get('pool', False))
+    flags = flags_for(c.get('disable', False), c.get('pool', False), c.get('events', False))
     w = K.World(flags, max_iters=20000)
     reqs: List[Tuple[bytes, List[int]]] = []
     warm = c.get('warm') or ['get'] * (c['position'] - 1)
@@ -202,7 +202,7 @@ def cases(draw: Any) -> Dict[str, Any]:
     req['fh_pos'] = draw(st.integers(0, len(req['headers'])))
     raw = G.render(req)
     position = draw(st.sampled_from([1, 1, 2, 3]))
-    c = {'req': req, 'disable': disable, 'position': position, 'pool': draw(st.integers(0, 4)) == 0,
+    c = {'req': req, 'disable': disable, 'position': position, 'pool': draw(st.integers(0, 4)) == 0, 'events': draw(st.integers(0, 4)) == 0,
          'warm': [draw(st.sampled_from(['get', 'chunked', 'cl', 'cl0'])) for _ in range(position - 1)],
          'cuts': draw(G.cut_set(len(raw), raw)), 'schedule': draw(st.lists(st.integers(0, 2), max_size=30))}
     return c
@@ -219,7 +219,7 @@ def run_shard(spec: Dict[str, Any], seed: int, acc: Any) -> None:
         req = c['req']
         labs = ['framing:' + req['framing'], 'position:%d' % c['position'], 'version:' + req['version'].decode(),
                 'segments:' + ('1' if info['segments'] == 1 else '2-8' if info['segments'] <= 8 else '>8')]
-        labs += ['after:' + k_ for k_ in sorted(set(c.get('warm') or []))] + (['conn-pool'] if c.get('pool') else [])
+        labs += ['after:' + k_ for k_ in sorted(set(c.get('warm') or []))] + (['conn-pool'] if c.get('pool') else []) + (['events-enabled'] if c.get('events') else [])
         if not req['body'] and req['framing'] == 'cl':
             labs.append('content-length-0')
         if not req['body'] and req['framing'] == 'chunked':
